@@ -3,13 +3,13 @@
 //!
 //! For a JSON document `d` (valid, or mutated) the implementation decodes it with
 //! `serde_json::from_value::<T>` and, when accepted, writes it again with `to_value`; the model does
-//! the same (`doc_dec`).  Both must agree on accept / reject and on the rewritten document.  The
-//! behaviour of the public-key (de)serialiser on the key descriptions that occur in `d` is observed
-//! here and handed to the model as a table; `expires` is read and written by the model's own RFC 3339
-//! reader / writer (Model/Time.lean, also exercised text by text in `timegen.rs`).
+//! the same (`doc_dec`).  Both must agree on accept / reject and on the rewritten document.  Nothing
+//! is handed to the model besides the document: key descriptions are read by Model/KeyJson.lean (PEM,
+//! DER, hex, SHA-256 for the ids), `expires` by Model/Time.lean; both are also exercised on their own
+//! (`key_dec`, `rfc3339` / `fmttime`).
 use crate::jsongen::{gen_string, proto};
 use crate::meta::*;
-use crate::proto::{guarded, hexs, Sink};
+use crate::proto::{guarded, Sink};
 use crate::rng::Rng;
 use in_toto::crypto::{PublicKey, Signature};
 use in_toto::models::inspection::Inspection;
@@ -34,32 +34,26 @@ fn collect_member<'a>(v: &'a Value, name: &str, out: &mut Vec<&'a Value>) {
     }
 }
 
-fn key_table(doc: &Value) -> String {
-    let mut tabs = vec![];
-    collect_member(doc, "keys", &mut tabs);
-    let mut seen: Vec<String> = vec![];
-    let mut out = String::new();
-    for t in tabs {
-        if let Value::Object(m) = t {
-            for (_, entry) in m {
-                let p = proto(entry, &mut None);
-                if seen.contains(&p) {
-                    continue;
-                }
-                seen.push(p.clone());
-                let e2 = entry.clone();
-                let res = match guarded(move || serde_json::from_value::<PublicKey>(e2)) {
-                    Ok(Ok(k)) => {
-                        let id = serde_json::to_value(k.key_id()).unwrap();
-                        format!("A2 S{} {}", hexs(id.as_str().unwrap()), proto(&serde_json::to_value(&k).unwrap(), &mut None))
-                    }
-                    _ => "N".to_string(),
-                };
-                out.push_str(&format!(" {} {}", p, res));
-            }
-        }
+/// a key description read and written again, with its id: `key_dec`
+pub fn key_case(sink: &mut Sink, doc: &Value, class: &str) {
+    if doc.to_string().contains("\"Unknown\"") {
+        return;
     }
-    format!("K {}{}", seen.len(), out)
+    let op = format!("key_dec {}", proto(doc, &mut None));
+    let d = doc.clone();
+    let ans = match guarded(move || serde_json::from_value::<PublicKey>(d)) {
+        Err(()) => {
+            sink.oracle(false, "the key reader panicked", &op);
+            return;
+        }
+        Ok(Err(_)) => "reject".to_string(),
+        Ok(Ok(k)) => {
+            let id = serde_json::to_value(k.key_id()).unwrap();
+            format!("ok {} {}", id.as_str().unwrap(), proto(&serde_json::to_value(&k).unwrap(), &mut None))
+        }
+    };
+    sink.stat(&format!("key_dec/{}/{}", class, ans.split(' ').next().unwrap()));
+    sink.op(&op, &ans, doc.is_object());
 }
 
 fn answer<T: Serialize + DeserializeOwned + PartialEq + 'static>(sink: &mut Sink, doc: &Value, op: &str) -> String {
@@ -91,7 +85,11 @@ fn answer<T: Serialize + DeserializeOwned + PartialEq + 'static>(sink: &mut Sink
 }
 
 pub fn doc_case(sink: &mut Sink, kind: &str, doc: &Value, class: &str) {
-    let op = format!("doc_dec {} {} {}", kind, proto(doc, &mut None), key_table(doc));
+    // (the `{"Unknown": s}` form of a signature scheme is outside the key model)
+    if doc.to_string().contains("\"Unknown\"") {
+        return;
+    }
+    let op = format!("doc_dec {} {}", kind, proto(doc, &mut None));
     let ans = match kind {
         "link" => answer::<LinkMetadata>(sink, doc, &op),
         "step" => answer::<Step>(sink, doc, &op),
